@@ -79,3 +79,10 @@ package clos
 //@   property C12
 //@   on-call SetSlotValue own-slot: $arg0 == ws && $arg1 == args[1]
 //@   ensures returns-the-value: value == args[1]
+
+// C12: of two initargs with the same name the leftmost one counts (make-instance
+// :x 1 :x 2 initialises from 1), and every value is stored under its own keyword.
+//@ func clos.fillMapFromKeyArgs
+//@   property C12
+//@   on-map-update m leftmost-wins: !$had
+//@   on-map-update m value-follows-its-keyword: $value == args[i] && i >= 1 && $key == key
